@@ -69,11 +69,23 @@ fn one(wseed: u64) {
     };
     let opts = GenOpts { variant: Some(variant), kinds, wide_max: 41, tiny: true, big_cp_of_8: 0 };
     let (spec, _): (Spec, _) = gen::gen_spec(&mut rng, &opts);
+    // Two haystacks. The first is searched by two threads at the same time, so it is made rich
+    // in repeated multi-byte characters and pattern occurrences: races on per-character or
+    // per-transition state need the same inputs to be looked up by both threads close in time.
     let nh = 2;
     let hays: Vec<Arc<[u8]>> = (0..nh)
-        .map(|_| {
-            let target = *rng.pick(&[4usize, 6, 8]);
-            let (h, _) = gen::gen_haystack(&mut rng, &spec, target);
+        .map(|i| {
+            let target = if i == 0 { *rng.pick(&[24usize, 32, 40]) } else { *rng.pick(&[6usize, 10]) };
+            let (mut h, _) = gen::gen_haystack(&mut rng, &spec, target);
+            if i == 0 {
+                // alternate between two pattern characters / patterns a few times
+                let a = spec.patterns[rng.below(spec.patterns.len())].clone();
+                let b = spec.patterns[rng.below(spec.patterns.len())].clone();
+                for _ in 0..3 {
+                    h.extend_from_slice(&a);
+                    h.extend_from_slice(&b);
+                }
+            }
             let h = if spec.variant == Variant::Charwise && std::str::from_utf8(&h).is_err() {
                 String::from_utf8_lossy(&h).into_owned().into_bytes()
             } else {
@@ -91,8 +103,9 @@ fn one(wseed: u64) {
         threads[0].push(Op::Search { method, hay: 0, iter: false });
         // the other thread runs the methods in rotated order so that different methods overlap too
         let m2 = ms[(i + rng.below(2)) % ms.len()];
-        threads[1].push(Op::Search { method: m2, hay: rng.below(nh), iter: m2 != Method::Leftmost });
+        threads[1].push(Op::Search { method: m2, hay: 0, iter: m2 != Method::Leftmost });
     }
+    threads[2].push(Op::Search { method: ms[0], hay: 1, iter: false });
     if spec.kind != Kind::LeftmostFirst && n >= 2 {
         let mut o: Vec<usize> = (0..n).collect();
         rng.shuffle(&mut o);
@@ -102,7 +115,7 @@ fn one(wseed: u64) {
     }
     threads[2].push(Op::Serialize);
     if rng.chance(1, 2) {
-        threads[2].swap(0, 1);
+        threads[2].swap(1, 2);
     }
     println!("wseed={wseed} spec={:?}/{:?}/{:?} patterns={} threads={:?}", spec.variant, spec.kind, spec.vtype, n, threads);
 
